@@ -118,7 +118,9 @@ Definition run_model_consistent (w : workspace) (c : run_case) : bool :=
   end.
 
 (* ---- exported aggregates of a collect run: key -> entries (a key without entries is the marker) ---- *)
-Record collect_case := { cc_part : list N; cc_use : bool; cc_keys : list (str * list N); cc_obs : list violation }.
+Record collect_case := { cc_part : list N; cc_use : bool; cc_keys : list (str * list N); cc_obs : list violation;
+                         cc_dirs : gomap }.     (* Report.IgnoreDirectives of the run: file -> row key -> names *)
+
 
 Definition same_ids (a b : list N) : bool := ids_eqb (sort_ids a) (sort_ids b).
 
@@ -129,6 +131,13 @@ Definition aggmap_matches (m : aggmap N) (obs : list (str * list N)) : bool :=
 Definition collect_agrees (w : workspace) (c : collect_case) : bool :=
   match files_of w (cc_part c) with
   | Some fs => aggmap_matches (m_collect w (cc_use c) fs) (cc_keys c)
+  | None => false
+  end.
+
+(* the directives a run exports: one entry per linted file, also for a file without directives *)
+Definition collect_dirs_agrees (w : workspace) (c : collect_case) : bool :=
+  match files_of w (cc_part c) with
+  | Some fs => gomap_same (exported_dirs cfile cf_name cf_comments fs) (cc_dirs c)
   | None => false
   end.
 
@@ -143,28 +152,36 @@ Definition collect_report_agrees (w : workspace) (c : collect_case) : bool :=
   | None => false
   end.
 
-(* ---- the cache ---- *)
+(* ---- the cache: aggregates and directives, driven through the history model of Model/AggCache.v ---- *)
 Inductive cache_op := OpSetAll (ids : list N) | OpSetFile (id : N) | OpDelete (name : str).
 
 Definition lookup_n (t : list (N * str)) (a : N) : str :=
   match find (fun kv => fst kv =? a) t with Some kv => snd kv | None => [] end.
 
-Definition apply_op (w : workspace) (c : option (cache N)) (op : cache_op) : option (cache N) :=
+Definition m_lsp_init (w : workspace) (fs : list cfile) : lsp_state N :=
+  lsp_init cfile N cf_name cf_comments (w_brules w) (w_ckeys w) b_aggregate c_aggregate (lookup_n (w_src w)) fs.
+Definition m_lsp_replace (w : workspace) (st : lsp_state N) (f : cfile) : lsp_state N :=
+  lsp_replace cfile N cf_name cf_comments (w_brules w) (w_ckeys w) b_aggregate c_aggregate (lookup_n (w_src w)) st f.
+Definition m_lsp_report (w : workspace) (st : lsp_state N) : list violation :=
+  lsp_report cfile N cf_name cf_comments (w_brules w) (w_ckeys w)
+             (oracle_report (w_btable w)) (oracle_report (w_ctable w)) (lookup_n (w_ikey w)) st.
+
+Definition apply_op (w : workspace) (c : option (lsp_state N)) (op : cache_op) : option (lsp_state N) :=
   match c with
   | None => None
-  | Some c =>
+  | Some st =>
     match op with
     | OpSetAll ids =>
         match files_of w ids with
-        | Some fs => Some (set_aggregates N (lookup_n (w_src w)) (m_collect w false fs))
+        | Some fs => Some (m_lsp_init w fs)
         | None => None
         end
     | OpSetFile id =>
         match file_by_id (w_files w) id with
-        | Some f => Some (set_file_aggregates N (lookup_n (w_src w)) (cf_name f) (m_collect w true [f]) c)
+        | Some f => Some (m_lsp_replace w st f)
         | None => None
         end
-    | OpDelete name => Some (delete N name c)
+    | OpDelete name => Some (lsp_delete N st name)
     end
   end.
 
@@ -172,27 +189,32 @@ Record cache_case := {
   kc_ops : list cache_op;
   kc_state : list N;                       (* the files the workspace consists of after the operations *)
   kc_dump : list (str * list N);           (* GetFileAggregates() *)
+  kc_dirs : gomap;                         (* GetIgnoreDirectives() *)
   kc_report : list violation;              (* WithAggregates(dump).WithIgnoreDirectives(cache) *)
   kc_fresh : list violation }.             (* one-shot over the current files *)
 
-Definition cache_model (w : workspace) (c : cache_case) : option (cache N) :=
-  fold_left (apply_op w) (kc_ops c) (Some []).
+Definition cache_model (w : workspace) (c : cache_case) : option (lsp_state N) :=
+  fold_left (apply_op w) (kc_ops c) (Some ([], [])).
 
 Definition cache_dump_agrees (w : workspace) (c : cache_case) : bool :=
   match cache_model w c with
-  | Some m => aggmap_matches (get_file_aggregates N (lookup_n (w_ikey w)) m) (kc_dump c)
+  | Some st => aggmap_matches (get_file_aggregates N (lookup_n (w_ikey w)) (fst st)) (kc_dump c)
   | None => false
   end.
 
-(* the report computed from the cached aggregates; directives: those of the current files *)
+(* the directive cache after every step: an explicit map, a re-linted file's entry replaced also by "none" *)
+Definition cache_dirs_agrees (w : workspace) (c : cache_case) : bool :=
+  match cache_model w c with
+  | Some st => gomap_same (snd st) (kc_dirs c)
+  | None => false
+  end.
+
+(* the report computed from the cached aggregates AND the cached directives (the model's own state after the
+   history, not the directives of the current files) *)
 Definition cache_report_model (w : workspace) (c : cache_case) : option (list violation) :=
-  match cache_model w c, files_of w (kc_state c) with
-  | Some m, Some fs =>
-      Some (lint_aggregate_violations N (w_brules w) (w_ckeys w)
-              (oracle_report (w_btable w)) (oracle_report (w_ctable w))
-              [] 0 (Some (get_file_aggregates N (lookup_n (w_ikey w)) m))
-              (carry_overridden [] (carry (results_of cfile cf_name cf_comments fs))))
-  | _, _ => None
+  match cache_model w c with
+  | Some st => Some (m_lsp_report w st)
+  | None => None
   end.
 
 Definition cache_report_agrees (w : workspace) (c : cache_case) : bool :=
@@ -205,4 +227,117 @@ Definition cache_fresh_agrees (w : workspace) (c : cache_case) : bool :=
   match files_of w (kc_state c) with
   | Some fs => same_violations (m_one_shot w fs) (kc_fresh c)
   | None => false
+  end.
+
+(* ---- the language server's own functions: bundled rules only (custom rules are not loaded) ---- *)
+Definition lsp_ws_of (w : workspace) (brules : list str) : workspace :=
+  {| w_files := w_files w; w_brules := brules; w_ckeys := []; w_btable := w_btable w; w_ctable := [];
+     w_src := w_src w; w_ikey := w_ikey w |}.
+
+Record lsp_case := {
+  lc_brules : list str;                    (* the bundled aggregate rules enabled in the server's configuration *)
+  lc_ops : list cache_op; lc_state : list N;
+  lc_dirs : gomap;                         (* GetIgnoreDirectives(), URIs made relative *)
+  lc_incr : list violation;                (* aggregate diagnostics of the incrementally updated cache *)
+  lc_fresh : list violation }.             (* ... of a cache linted from scratch *)
+
+Definition lsp_ws (w : workspace) (c : lsp_case) : workspace := lsp_ws_of w (lc_brules c).
+
+Definition lsp_model (w : workspace) (c : lsp_case) : option (lsp_state N) :=
+  fold_left (apply_op (lsp_ws w c)) (lc_ops c) (Some ([], [])).
+
+Definition lsp_dirs_agrees (w : workspace) (c : lsp_case) : bool :=
+  match lsp_model w c with
+  | Some st => gomap_same (snd st) (lc_dirs c)
+  | None => false
+  end.
+
+(* updateAllDiagnostics stores diagnostics per file of the workspace: a violation that names no file (e.g.
+   no-defined-entrypoint) is not observable in the per-file diagnostics the harness reads back *)
+Definition located (vs : list violation) : list violation :=
+  filter (fun v => match v_file v with [] => false | _ => true end) vs.
+
+Definition lsp_report_agrees (w : workspace) (c : lsp_case) : bool :=
+  match lsp_model w c with
+  | Some st => same_violations (located (m_lsp_report (lsp_ws w c) st)) (lc_incr c)
+  | None => false
+  end.
+
+(* the statement of incremental_directives_eq_fresh evaluated on the model with the real tables (no custom rules
+   here, so no bare marker): the model's incremental report = the model's one-shot over the current files *)
+Definition lsp_model_consistent (w : workspace) (c : lsp_case) : bool :=
+  match lsp_model w c, files_of w (lc_state c) with
+  | Some st, Some fs =>
+      Nat.leb (length fs) 1 || same_violations (m_lsp_report (lsp_ws w c) st) (m_one_shot (lsp_ws w c) fs)
+  | _, _ => false
+  end.
+
+Definition lsp_fresh_agrees (w : workspace) (c : lsp_case) : bool :=
+  match files_of w (lc_state c) with
+  | Some fs => Nat.leb (length fs) 1 || same_violations (located (m_one_shot (lsp_ws w c) fs)) (lc_fresh c)
+  | None => false
+  end.
+
+(* ---- a client of the public API along a history: per-file exports, ONE directive map updated from every run ---- *)
+Record client_case := {
+  cl_ops : list cache_op;                  (* OpSetFile per (re-)linted file, OpDelete per removed file, in order *)
+  cl_state : list N;                       (* current files, in the order their exports were merged *)
+  cl_mixed : option N;                     (* Some id: the last re-linted file is linted by the reporting run itself,
+                                              which is handed the directive map of before that step *)
+  cl_obs : list violation }.
+
+Definition api_apply (w : workspace) (st : option (api_state cfile)) (op : cache_op) : option (api_state cfile) :=
+  match st with
+  | None => None
+  | Some st =>
+    match op with
+    | OpSetAll ids =>
+        match files_of w ids with
+        | Some fs => Some (api_init cfile cf_name cf_comments fs)
+        | None => None
+        end
+    | OpSetFile id =>
+        match file_by_id (w_files w) id with
+        | Some f => Some (api_replace cfile cf_name cf_comments st f)
+        | None => None
+        end
+    | OpDelete name => Some (api_delete cfile cf_name st name)
+    end
+  end.
+
+Definition m_api_report (w : workspace) (st : api_state cfile) : list violation :=
+  api_report cfile N cf_name cf_comments (w_brules w) (w_ckeys w) b_aggregate c_aggregate
+             (oracle_report (w_btable w)) (oracle_report (w_ctable w)) st.
+
+Definition client_model (w : workspace) (c : client_case) : option (list violation) :=
+  match cl_mixed c with
+  | None =>
+    match fold_left (api_apply w) (cl_ops c) (Some ([], [])), files_of w (cl_state c) with
+    | Some st, Some fs =>
+        if same_ids (map cf_id (fst st)) (cl_state c) then Some (m_api_report w (fs, snd st)) else None
+    | _, _ => None
+    end
+  | Some id =>
+    (* all operations but the last one make the provided map; the last one must be the re-lint of file id *)
+    match fold_left (api_apply w) (removelast (cl_ops c)) (Some ([], [])), file_by_id (w_files w) id,
+          files_of w (cl_state c) with
+    | Some st, Some f, Some fs =>
+        Some (lint_aggregate_violations N (w_brules w) (w_ckeys w) (oracle_report (w_btable w)) (oracle_report (w_ctable w))
+                (m_collect w false [f]) 1
+                (Some (api_aggs cfile N (w_brules w) (w_ckeys w) b_aggregate c_aggregate fs))
+                (lint_dirs cfile cf_name cf_comments (snd st) [f]))
+    | _, _, _ => None
+    end
+  end.
+
+Definition client_agrees (w : workspace) (c : client_case) : bool :=
+  match client_model w c with
+  | Some vs => same_violations vs (cl_obs c)
+  | None => false
+  end.
+
+Definition client_model_consistent (w : workspace) (c : client_case) : bool :=
+  match client_model w c, files_of w (cl_state c) with
+  | Some vs, Some fs => Nat.leb (length fs) 1 || same_violations vs (m_one_shot w fs)
+  | _, _ => false
   end.
